@@ -138,6 +138,13 @@ func (g *Gen) literalsFor(v reflect.Value) []string {
 		} else {
 			out = append(out, "-0x"+strconv.FormatUint(uint64(-x), 16), "-0b"+strconv.FormatUint(uint64(-x), 2))
 		}
+		if w := v.Type().Bits(); w < 64 {
+			// valid 64-bit literals that are congruent to the value modulo 2^width (a comparison made
+			// after narrowing the literal would call them equal), and the first values out of range
+			m := int64(1) << uint(w)
+			out = append(out, strconv.FormatInt(x+m, 10), strconv.FormatInt(x-m, 10), strconv.FormatInt(x+2*m, 10), strconv.FormatInt(m/2, 10), strconv.FormatInt(-m/2-1, 10),
+				"0x"+strconv.FormatInt(int64(uint64(x)&uint64(m-1))+m, 16))
+		}
 		return out
 	case reflect.Uint, reflect.Uint8, reflect.Uint16, reflect.Uint32, reflect.Uint64, reflect.Uintptr:
 		x := v.Uint()
@@ -146,6 +153,10 @@ func (g *Gen) literalsFor(v reflect.Value) []string {
 			"0x" + strconv.FormatUint(x, 16), "0o" + strconv.FormatUint(x, 8), "0b" + strconv.FormatUint(x, 2), "0" + strconv.FormatUint(x, 8)}
 		if x >= 1000 {
 			out = append(out, s[:len(s)-3]+"_"+s[len(s)-3:], "0x_"+strconv.FormatUint(x, 16))
+		}
+		if w := v.Type().Bits(); w < 64 && v.Kind() != reflect.Uintptr {
+			m := uint64(1) << uint(w)
+			out = append(out, strconv.FormatUint(x+m, 10), strconv.FormatUint(x+2*m, 10), strconv.FormatUint(m, 10), "0x"+strconv.FormatUint(x+m, 16))
 		}
 		return out
 	case reflect.Float32, reflect.Float64:
@@ -158,6 +169,24 @@ func (g *Gen) literalsFor(v reflect.Value) []string {
 			strconv.FormatFloat(x, 'g', -1, 64), strconv.FormatFloat(x, 'x', -1, bits), strconv.FormatFloat(x, 'f', 40, 64),
 			"0", "-0", "1", "1.5", "abc", "", "1e400", "-1e400", "1e-400", "inf", "-Inf", "nan", "NaN", "0x1p-2", "1_0.5", ".5", "5.", "1e",
 			strconv.FormatFloat(math.Nextafter(x, math.Inf(1)), 'g', -1, 64), strconv.FormatFloat(float64(float32(x))*(1+1e-9), 'g', 20, 64)}
+		if bits == 32 && !math.IsInf(x, 0) && !math.IsNaN(x) {
+			// literals on which reading at 64 bits and narrowing differs from reading at 32 bits: just
+			// beside the midpoint of two neighbouring float32 values (double rounding), and beyond the
+			// float32 range but inside the float64 range
+			f := float32(x)
+			up := math.Nextafter32(f, float32(math.Inf(1)))
+			dn := math.Nextafter32(f, float32(math.Inf(-1)))
+			for _, nb := range []float32{up, dn} {
+				if !math.IsInf(float64(nb), 0) {
+					mid := strconv.FormatFloat((float64(f)+float64(nb))/2, 'f', -1, 64)
+					if !strings.Contains(mid, ".") {
+						mid += "."
+					}
+					out = append(out, mid, mid+"00000000000000000000000000000001", strconv.FormatFloat((float64(f)+float64(nb))/2, 'x', -1, 64))
+				}
+			}
+			out = append(out, "1e39", "-1e39", "3.4028235677973366e38", "340282356779733661637539395458142568448", "3.4028234e38", "0x1p128", "1e-46")
+		}
 		return out
 	case reflect.String:
 		s := v.String()
@@ -170,6 +199,10 @@ func (g *Gen) literalsFor(v reflect.Value) []string {
 		out := []string{"a", "foo", "1", "0", "7", "42", "true", "", "x", "1.5", "abc", "9223372036854775808", "<invalid Value>"}
 		for i := 0; i < v.Len() && i < 4; i++ {
 			out = append(out, g.literalsFor(v.Index(i))[:2]...)
+		}
+		if v.Len() > 0 {
+			// every kind of literal (nearby, ill-typed, out of range, odd spellings) of one element
+			out = append(out, g.literalsFor(v.Index(g.r.Intn(v.Len())))...)
 		}
 		return out
 	case reflect.Map:
@@ -253,7 +286,7 @@ func (g *Gen) genMatch(paths []PathInfo, illTyped bool) GExpr {
 	}
 	parts := pi.Parts
 	val := pi.Val
-	if g.r.Intn(12) == 0 {
+	if g.r.Intn(12) == 0 && !g.noMutate {
 		parts = g.mutatePath(parts)
 		val = reflect.Value{}
 	}
